@@ -171,6 +171,7 @@ struct Obj {
   // Static inline function
   bool is_live;
   bool is_root;
+  bool static_by_inline; // is_static only because every declaration so far says 'inline' without 'extern'
   StringArray refs;
 };
 
